@@ -72,6 +72,12 @@ class Opaque(T):
     def __repr__(self): return 'Opaque(%s)' % self.name
 
 
+class MutOpaque(T):
+    """mutable abstract object: a heap cell holding the current abstract value"""
+    def __init__(self, name): self.name = name
+    def __repr__(self): return 'MutOpaque(%s)' % self.name
+
+
 class StrN(T):
     """string of exactly n symbolic code points (vector string)"""
     def __init__(self, n): self.n = n
@@ -131,6 +137,8 @@ def zsort(t):
 def to_z(v, t):
     """symbolic value -> z3 expression of sort zsort(t)"""
     if isinstance(v, SIte):
+        if v.orig is not None and v.orig[1] == repr(t):
+            return v.orig[0]
         return z3.If(v.c, to_z(v.a, t), to_z(v.b, t))
     if isinstance(t, Opt):
         d = opt_sort(t.t)
@@ -166,7 +174,7 @@ def from_z(e, t):
             return NONE
         if z3.is_app(es) and es.decl().eq(d.constructor(1)):
             return from_z(es.arg(0), t.t)
-        return SIte(d.recognizer(0)(e), NONE, from_z(d.accessor(1, 0)(e), t.t))
+        return SIte(d.recognizer(0)(e), NONE, from_z(d.accessor(1, 0)(e), t.t), orig=(e, repr(t)))
     if t is NoneT:
         return NONE
     if t is Int:
